@@ -44,6 +44,19 @@ CLAIMED = {
         "model level. Dyadic floating-point values only.",
    technique="TLA+ functional/abstract specification + TLC model checking of CAS loops + TLC trace validation of real multi-threaded runs",
    engine="mc+free+tv", design_ref="6/C15"),
+ "C05": dict(
+   category="model_checking",
+   text="Each barrier (counting, MCS tree, dissemination, topology-aware for 6 socket layouts, the condition-variable "
+        "'simple' barrier) is an implementation-level PlusCal model with one label per shared access; TLC checks "
+        "PhaseSeparation and termination of all threads for every interleaving of 3-6 threads x 2-3 phases. The real "
+        "barriers (all six + the system barrier) run on pool threads under the controlled scheduler (every atomic/mutex/"
+        "condvar operation and spin iteration is a scheduling point; seeded random and PCT schedules; synthetic topologies "
+        "1x16, 2x2, 3+1, 4x1; proven-deadlock detection), with jitter and free-running up to 8 threads, through reinit "
+        "sequences with changing counts; every arrive/depart log is validated by TLC against BarrierAbs.",
+   note="Trusted: TLC, the controlled runtime (harness/runtime), POSIX barrier contract for the pthread barrier. "
+        "Real-code schedules are sampled (not exhaustive); exhaustiveness is at the model level.",
+   technique="PlusCal/TLA+ implementation models checked by TLC + controlled-schedule execution of the real barriers + TLC trace validation",
+   engine="mc+ctl+free+tv", design_ref="6/C05"),
 }
 
 NOT_YET = "check not built yet in this round (specification and harness planned in DESIGN.md section 6); not claimed"
